@@ -609,6 +609,9 @@ func init() {
 	// crypto/cipher.AEAD (assumed contract of AES-GCM): Open returns len(ciphertext)-16 bytes on success,
 	// Seal appends len(plaintext)+16 bytes to dst.
 	ifaceHandlers["cipher.AEAD.Open"] = func(e *Eng, fr *Frame, c *ssa.CallCommon, recv *Val, args []*Val, st *State, g string, pos token.Pos) *Val {
+		// "Even if the function fails, the contents of dst, up to its capacity, may be overwritten": a non-nil dst
+		// (in-place decryption passes ciphertext[:0]) gives Open the backing array to write, on success and on failure
+		e.havocThrough(st, args[0])
 		res := e.havocResults(c, st)
 		plain, errv := res.Tup[0], res.Tup[1]
 		e.sc.assume(implies(eq(errv.T, "0"), and(eq(sx("s_len", plain.T), sx("-", sx("+", sx("s_len", args[0].T), sx("s_len", args[2].T)), "16")), sx(">=", sx("s_len", args[2].T), "16"))), "AEAD.Open: plaintext is 16 bytes shorter than the ciphertext (appended to dst)")
